@@ -1,10 +1,48 @@
 /-
   Props/C02.lean — property theorems for C02 (optimisation never changes results).
-  (interim: the CLVM-level pass theorems are added once Proofs/EvalLemmas.lean is merged)
+
+  Part 1 (borrowed from C01): optimising and non-optimising builds address arguments through the
+  same, proved-correct path function.
+
+  Part 2: the modern compiler's CLVM-level passes that run on every optimising cl23+ build
+  (`null_optimization`, `remove_double_apply` with its three root rewrites and its fixpoint loop,
+  `brief_path_selection`) and their sequencing in `Strategy23` / `ExistingStrategy`
+  (model: Opt/Passes.lean, mirrored from the Rust code and compared byte-for-byte with it by
+  `tools/props/c02.py`).  For each root rewrite and each whole pass: ONE-DIRECTIONAL semantic
+  preservation against the consensus evaluator model,
+
+      Evaluates ops (toClvm m r) env v  →  Evaluates ops (toClvm m (pass r)) env v
+
+  for all rich values `r`, all environments, every operator table with `PassOps` (f / r / c are
+  first / rest / cons, `i` selects by nil-ness, the unknown operator 0x71 does not return a
+  non-nil value on no operands), in both integer-conversion modes (`m = false`: cl23, legacy;
+  `m = true`: cl23.1 / cl24, fixed).
+
+  FULL STATEMENT (for ALL inputs, without the `flag = false` / `collapseSafe` hypotheses) is FALSE
+  for the code as it is; each excluded class has a kernel-checked counter-witness below:
+    * legacy mode, `collapse_constant_condition`: `truthy` calls the quoted atom `0x00` false,
+      CLVM calls it true                      (`collapse_constant_condition_counterexample`)
+      — REACHABLE from source: `(mod (A B) (include *standard-cl-23*) (i 0x00 A B))`;
+    * legacy mode, `null_optimization`: `(q . 0)` with `Integer 0` becomes the path `0x00`
+                                              (`null_optimization_counterexample_legacy_zero`);
+    * `Strategy23` calls `null_optimization(root, spine = true)`: a root quote form `(q . DATA)`
+      has the elements of DATA rewritten        (`null_optimization_counterexample_root_quote`)
+      — REACHABLE from source: `(mod () (include *standard-cl-23*) (q (1)))`;
+    * the `while` loop of `remove_double_apply` re-enters a result that has become a quote form
+      and rewrites inside the quoted data       (`remove_double_apply_counterexample_requoted`);
+    * operands of a pair-headed form `((X) . args)` are rewritten although clvmr does not
+      evaluate them                              (`*_counterexample_pair_head`);
+    * `brief_path_selection_single` composes onto a NEGATIVE `Integer` as if it were path 1
+                                              (`brief_path_selection_counterexample_negative`).
+  The `_partial` theorems carry exactly these exclusions as the decidable ghost flag the model
+  computes alongside the result (`PR.flag`, Opt/Passes.lean); the correspondence run reports how
+  often real code-generator output raises it.
 -/
 import ChialispModel.Props.C01
+import ChialispModel.Proofs.PassesLemmas
 
 namespace C02
+open Clvm Passes
 
 /-- both optimising and non-optimising builds address arguments through the same path
     function; its correctness (C01 Layer A) is what makes their results agree on variables. -/
@@ -13,5 +51,350 @@ theorem shared_name_lookup (name : Bytes) (pat : Rich) (hok : Lang.patOk pat = t
     (hb : Lang.bindPat pat (Lang.SV.ofVal v) = some ρ) :
     ∃ w, Lang.lookupEnv name ρ = some (Lang.SV.ofVal w) ∧ Path.lookupNat p v = .ok w :=
   C01.name_lookup_correct name pat hok p h v ρ hb
+
+-- ---------------------------------------------------------------------------------------
+-- the operator-table hypothesis is met by the concrete table
+-- ---------------------------------------------------------------------------------------
+
+/-- the driver's operator table (clvmr's, strict about unknown operators) satisfies `PassOps`. -/
+theorem pass_ops_chia : PassOps Ops.chiaOps where
+  core := Ops.chiaOps_core
+  if_inv args v h := by
+    rw [Ops.chiaOps_apply] at h
+    unfold Ops.chiaApply at h
+    have hu : Ops.unsupportedOp [3] = false := by decide
+    simp only [hu, Bool.false_eq_true, if_false, sn3] at h
+    simp only [List.length_cons, List.length_nil] at h
+    simp only [Ops.getArgs] at h
+    cases args with
+    | atom b => simp [Val.elems, failR] at h
+    | pair c r1 =>
+      cases r1 with
+      | atom b => simp [Val.elems, failR] at h
+      | pair a r2 =>
+        cases r2 with
+        | atom b => simp [Val.elems, failR] at h
+        | pair b t =>
+          refine ⟨c, a, b, t, rfl, ?_⟩
+          cases ht : Val.elems t with
+          | nil => simp [Val.elems, ht] at h; exact h.symm
+          | cons x xs => simp [Val.elems, ht, failR] at h
+  q113 v h := by
+    rw [Ops.chiaOps_apply] at h
+    have : Ops.chiaApply [113] Val.nil = failR "unknown op" := by decide
+    rw [this] at h; cases h
+
+-- ---------------------------------------------------------------------------------------
+-- the three root rewrites
+-- ---------------------------------------------------------------------------------------
+
+/-- **change_double_to_single_apply** `(a (q . X) 1 . ANY) ⇒ X`: sound for every rich value, every
+    operator table, both integer modes (the pattern's unchecked tail `ANY` and the three rich
+    spellings of `a`, `q`, `1` included). -/
+theorem change_double_to_single_apply_sound {ops : OpSem} (m : Mode) (r : Rich) (e v : Val)
+    (h : Evaluates ops (Rich.toClvm m r) e v) :
+    Evaluates ops (Rich.toClvm m (changeDoubleToSingleApply r).2) e v :=
+  changeDoubleToSingleApply_sound m r h
+
+example : changeDoubleToSingleApply
+    (.cons (.int 2) (.cons (.cons (.atom [1]) (.cons (.int 5) (.cons (.int 3) .nil))) (.cons (.qstr 120 [1]) .nil)))
+    = (true, .cons (.int 5) (.cons (.int 3) .nil)) := by decide
+
+/-- **change_apply_double_quote** `(a (q 1 . BODY) . ANY) ⇒ (q . BODY)`: sound for every rich
+    value, every operator table, both modes (the optimised form no longer evaluates the
+    environment operand: lazier, never a different value). -/
+theorem change_apply_double_quote_sound {ops : OpSem} (m : Mode) (r : Rich) (e v : Val)
+    (h : Evaluates ops (Rich.toClvm m r) e v) :
+    Evaluates ops (Rich.toClvm m (changeApplyDoubleQuote r).2) e v :=
+  changeApplyDoubleQuote_sound m r h
+
+example : changeApplyDoubleQuote
+    (.cons (.int 2) (.cons (.cons (.int 1) (.cons (.int 1) (.atom [7, 7]))) (.cons (.int 11) .nil)))
+    = (true, .cons (.int 1) (.atom [7, 7])) := by decide
+
+/-- **collapse_constant_condition** `(i COND A B . ANY) ⇒ A | B`: sound under the decidable side
+    condition `collapseSafe` (a quoted condition's `truthy` is CLVM truthiness of its converted
+    value).  FULL STATEMENT without `hs` is false in the legacy mode:
+    `collapse_constant_condition_counterexample`. -/
+theorem collapse_constant_condition_partial {ops : OpSem} (po : PassOps ops) (m : Mode) (r : Rich)
+    (hs : collapseSafe m r = true) (e v : Val) (h : Evaluates ops (Rich.toClvm m r) e v) :
+    Evaluates ops (Rich.toClvm m (collapseConstantCondition m r).2) e v :=
+  collapseConstantCondition_sound po m r hs h
+
+/-- in the fixed integer mode (cl23.1, cl24) the side condition holds for EVERY input, so there
+    the rewrite is sound without exclusions. -/
+theorem collapse_constant_condition_sound_fixed {ops : OpSem} (po : PassOps ops) (r : Rich)
+    (e v : Val) (h : Evaluates ops (Rich.toClvm true r) e v) :
+    Evaluates ops (Rich.toClvm true (collapseConstantCondition true r).2) e v :=
+  collapseConstantCondition_sound po true r (collapseSafe_fixed r) h
+
+example : collapseSafe false (.cons (.int 3) (.cons (.cons (.int 1) (.int 7)) (.cons (.int 2) (.cons (.int 5) .nil)))) = true ∧
+    collapseConstantCondition false (.cons (.int 3) (.cons (.cons (.int 1) (.int 7)) (.cons (.int 2) (.cons (.int 5) .nil))))
+      = (true, .int 2) := by decide
+
+private def A (l : List Nat) : Val := .atom (l.map UInt8.ofNat)
+
+/-- counter-witness (legacy integer mode, cl23): `(i (q . 0x00) 2 3)` returns the FIRST wing in
+    clvmr (`0x00` is a non-empty atom), `collapse_constant_condition` picks the second
+    (`truthy` reads `0x00` as the number 0).  Reachable from source, see the header. -/
+theorem collapse_constant_condition_counterexample :
+    collapseSafe false (.cons (.int 3) (.cons (.cons (.int 1) (.qstr 120 [0])) (.cons (.int 2) (.cons (.int 3) .nil)))) = false ∧
+    evalC Ops.chiaOps 6 (Rich.toClvm false
+      (.cons (.int 3) (.cons (.cons (.int 1) (.qstr 120 [0])) (.cons (.int 2) (.cons (.int 3) .nil)))))
+      (.pair (A [7]) (A [8])) = .ok (A [7]) ∧
+    collapseConstantCondition false
+      (.cons (.int 3) (.cons (.cons (.int 1) (.qstr 120 [0])) (.cons (.int 2) (.cons (.int 3) .nil)))) = (true, .int 3) ∧
+    evalC Ops.chiaOps 6 (Rich.toClvm false (.int 3)) (.pair (A [7]) (A [8])) = .ok (A [8]) := by
+  decide
+
+-- ---------------------------------------------------------------------------------------
+-- null_optimization
+-- ---------------------------------------------------------------------------------------
+
+/-- **null_optimization** as called by both strategies (`spine = false`: `ExistingStrategy`,
+    `spine = true`: `Strategy23`): every value of the input is a value of the output, for every
+    run whose ghost flag is clear.  FULL STATEMENT without `hf` is false:
+    `null_optimization_counterexample_*`. -/
+theorem null_optimization_partial {ops : OpSem} (po : PassOps ops) (m : Mode) (r : Rich) (spine : Bool)
+    (hf : (nullPass m r spine).flag = false) (e v : Val) (h : Evaluates ops (Rich.toClvm m r) e v) :
+    Evaluates ops (Rich.toClvm m (nullPass m r spine).out) e v := by
+  have := nullPass_pres po m r spine hf
+  simp only [Pres, if_true] at this
+  exact this e v h
+
+/-- `null_optimization` reporting "no work" returns its input. -/
+theorem null_optimization_unchanged (m : Mode) (r : Rich) (spine : Bool)
+    (h : (nullOpt m r spine).changed = false) : (nullOpt m r spine).out = r :=
+  nullOpt_unchanged m r spine h
+
+-- (c (q) (f (q)))   ⇒   (c () (f ()))   — the test case of mod.rs, flag clear
+example : nullPass true (.cons (.int 4) (.cons (.cons (.int 1) .nil) (.cons (.cons (.int 5) (.cons (.cons (.atom [113]) .nil) .nil)) .nil))) true
+    = ⟨true, .cons (.int 4) (.cons .nil (.cons (.cons (.int 5) (.cons .nil .nil)) .nil)), false, false⟩ := by decide
+
+/-- counter-witness (root quote form, `Strategy23`): the program `(q (q))` returns `((q))`;
+    `null_optimization(root, spine = true)` turns it into `(q ())`, which returns `(())`.
+    Reachable from source: `(mod () (include *standard-cl-23*) (q (1)))`. -/
+theorem null_optimization_counterexample_root_quote :
+    (nullPass true (.cons (.int 1) (.cons (.cons (.int 1) .nil) .nil)) true)
+      = ⟨true, .cons (.int 1) (.cons .nil .nil), true, false⟩ ∧
+    evalC Ops.chiaOps 4 (Rich.toClvm true (.cons (.int 1) (.cons (.cons (.int 1) .nil) .nil))) (A [])
+      = .ok (.pair (.pair (A [1]) (A [])) (A [])) ∧
+    evalC Ops.chiaOps 4 (Rich.toClvm true (.cons (.int 1) (.cons .nil .nil))) (A [])
+      = .ok (.pair (A []) (A [])) := by
+  decide
+
+/-- counter-witness (legacy mode): `(q . 0)` with the `Integer 0` spelling is the atom `0x00`;
+    the replacement `Integer 0` is the PATH `0x00`, which is nil. -/
+theorem null_optimization_counterexample_legacy_zero :
+    (nullPass false (.cons (.int 1) (.int 0)) false) = ⟨true, .int 0, true, false⟩ ∧
+    evalC Ops.chiaOps 4 (Rich.toClvm false (.cons (.int 1) (.int 0))) (A [9]) = .ok (A [0]) ∧
+    evalC Ops.chiaOps 4 (Rich.toClvm false (.int 0)) (A [9]) = .ok (A []) := by
+  decide
+
+/-- counter-witness (pair head): `((c) (q) (q))` applies `c` to the UNEVALUATED operands and
+    returns `((q) q)`; after `null_optimization` it returns `(() . ())`. -/
+theorem null_optimization_counterexample_pair_head :
+    (nullPass true (.cons (.cons (.int 4) .nil) (.cons (.cons (.int 1) .nil) (.cons (.cons (.int 1) .nil) .nil))) false)
+      = ⟨true, .cons (.cons (.int 4) .nil) (.cons .nil (.cons .nil .nil)), true, false⟩ ∧
+    evalC Ops.chiaOps 4 (Rich.toClvm true
+        (.cons (.cons (.int 4) .nil) (.cons (.cons (.int 1) .nil) (.cons (.cons (.int 1) .nil) .nil)))) (A [9])
+      = .ok (.pair (.pair (A [1]) (A [])) (.pair (A [1]) (A []))) ∧
+    evalC Ops.chiaOps 4 (Rich.toClvm true (.cons (.cons (.int 4) .nil) (.cons .nil (.cons .nil .nil)))) (A [9])
+      = .ok (.pair (A []) (A [])) := by
+  decide
+
+-- ---------------------------------------------------------------------------------------
+-- remove_double_apply
+-- ---------------------------------------------------------------------------------------
+
+/-- **remove_double_apply(sexp, true)** — recursion with both `spine` flags, the three root
+    rewrites and the `while any_transformation` loop — preserves every value of the input, for
+    EVERY amount of loop fuel (a run cut short returns an intermediate tree that still means what
+    the input means) and every run whose ghost flag is clear.  FULL STATEMENT without `hf` is
+    false: `remove_double_apply_counterexample_*`. -/
+theorem remove_double_apply_partial {ops : OpSem} (po : PassOps ops) (m : Mode) (fuel : Nat) (r : Rich)
+    (hf : (rda m fuel r true).flag = false) (e v : Val) (h : Evaluates ops (Rich.toClvm m r) e v) :
+    Evaluates ops (Rich.toClvm m (rda m fuel r true).out) e v := by
+  have := (rda_pres po m fuel).1 r true hf
+  simp only [Pres, if_true] at this
+  exact this e v h
+
+/-- the same for the list-tail entry `remove_double_apply(sexp, false)`: every evaluated operand
+    list of the input is one of the output. -/
+theorem remove_double_apply_tail_partial {ops : OpSem} (po : PassOps ops) (m : Mode) (fuel : Nat) (r : Rich)
+    (hf : (rda m fuel r false).flag = false) (e vals : Val) (h : EvalArgs ops (Rich.toClvm m r) e vals) :
+    EvalArgs ops (Rich.toClvm m (rda m fuel r false).out) e vals := by
+  have := (rda_pres po m fuel).1 r false hf
+  simp only [Pres] at this
+  exact this e vals h
+
+/-- a run that reports "not transformed" returns its input, for every fuel. -/
+theorem remove_double_apply_unchanged (m : Mode) (fuel : Nat) (r : Rich) (spine : Bool)
+    (h : (rda m fuel r spine).changed = false) : (rda m fuel r spine).out = r :=
+  (rda_unchanged m fuel).1 r spine h
+
+-- (a (q . (a (q . (i (q . 1) 2 3)) 1)) 1)  ⇒  2      (three loop rounds, all three rewrites' kin)
+example : removeDoubleApply true
+    (.cons (.int 2) (.cons (.cons (.int 1)
+      (.cons (.int 2) (.cons (.cons (.int 1) (.cons (.int 3) (.cons (.cons (.int 1) (.int 1)) (.cons (.int 2) (.cons (.int 3) .nil)))))
+        (.cons (.int 1) .nil)))) (.cons (.int 1) .nil))) true
+    = ⟨true, .int 2, false, false⟩ := by decide
+
+/-- counter-witness (quoted data reached as code): `(a (q 1 . ((i () 2 3))) 1)` returns the DATA
+    `((i () 2 3))`; the first loop round rewrites it to `(q . ((i () 2 3)))`, the loop goes round
+    again without re-checking for a quote form, and the second round collapses the "condition"
+    inside the data: the result `(q 3)` returns `(3)`. -/
+theorem remove_double_apply_counterexample_requoted :
+    removeDoubleApply true
+      (.cons (.int 2) (.cons (.cons (.int 1) (.cons (.int 1) (.cons (.cons (.int 3) (.cons .nil (.cons (.int 2) (.cons (.int 3) .nil)))) .nil)))
+        (.cons (.int 1) .nil))) true
+      = ⟨true, .cons (.int 1) (.cons (.int 3) .nil), true, false⟩ ∧
+    evalC Ops.chiaOps 6 (Rich.toClvm true
+      (.cons (.int 2) (.cons (.cons (.int 1) (.cons (.int 1) (.cons (.cons (.int 3) (.cons .nil (.cons (.int 2) (.cons (.int 3) .nil)))) .nil)))
+        (.cons (.int 1) .nil)))) (A [9])
+      = .ok (.pair (.pair (A [3]) (.pair (A []) (.pair (A [2]) (.pair (A [3]) (A []))))) (A [])) ∧
+    evalC Ops.chiaOps 6 (Rich.toClvm true (.cons (.int 1) (.cons (.int 3) .nil))) (A [9])
+      = .ok (.pair (A [3]) (A [])) := by
+  decide
+
+/-- counter-witness (pair head): `((c) (a (q . 5) 1) 7)` returns `((a (q . 5) 1) . 7)` (operands
+    unevaluated); after the pass, `(5 . 7)`. -/
+theorem remove_double_apply_counterexample_pair_head :
+    removeDoubleApply true
+      (.cons (.cons (.int 4) .nil) (.cons (.cons (.int 2) (.cons (.cons (.int 1) (.int 5)) (.cons (.int 1) .nil))) (.cons (.int 7) .nil))) true
+      = ⟨true, .cons (.cons (.int 4) .nil) (.cons (.int 5) (.cons (.int 7) .nil)), true, false⟩ ∧
+    evalC Ops.chiaOps 6 (Rich.toClvm true
+      (.cons (.cons (.int 4) .nil) (.cons (.cons (.int 2) (.cons (.cons (.int 1) (.int 5)) (.cons (.int 1) .nil))) (.cons (.int 7) .nil)))) (A [9])
+      = .ok (.pair (.pair (A [2]) (.pair (.pair (A [1]) (A [5])) (.pair (A [1]) (A [])))) (A [7])) ∧
+    evalC Ops.chiaOps 6 (Rich.toClvm true
+      (.cons (.cons (.int 4) .nil) (.cons (.int 5) (.cons (.int 7) .nil)))) (A [9])
+      = .ok (.pair (A [5]) (A [7])) := by
+  decide
+
+-- ---------------------------------------------------------------------------------------
+-- brief_path_selection
+-- ---------------------------------------------------------------------------------------
+
+/-- **brief_path_selection_single**: an `f`/`r` chain over an `Integer` path ⇒ the composed path
+    (`compose_paths(I, target)`: `I`'s bits first), for every chain length and every path width. -/
+theorem brief_path_selection_single_partial {ops : OpSem} (po : PassOps ops) (m : Mode) (r : Rich)
+    (hf : (briefSingle r).flag = false) (e v : Val) (h : Evaluates ops (Rich.toClvm m r) e v) :
+    Evaluates ops (Rich.toClvm m (briefSingle r).out) e v := by
+  have := briefSingle_pres po m r hf
+  simp only [Pres, if_true] at this
+  exact this e v h
+
+/-- **brief_path_selection** (recursion through every proper list not headed by `q`, rebuilt onto
+    `Nil`).  FULL STATEMENT without `hf` is false: `brief_path_selection_counterexample_negative`. -/
+theorem brief_path_selection_partial {ops : OpSem} (po : PassOps ops) (m : Mode) (r : Rich)
+    (hf : (briefPath r).flag = false) (e v : Val) (h : Evaluates ops (Rich.toClvm m r) e v) :
+    Evaluates ops (Rich.toClvm m (briefPath r).out) e v := by
+  have := (brief_pres po m r).1 hf
+  simp only [Pres, if_true] at this
+  exact this e v h
+
+-- (f (f (r (f 11))))  ⇒  147     (the test case of brief.rs)
+example : briefPath (.cons (.int 5) (.cons (.cons (.int 5) (.cons (.cons (.int 6) (.cons (.cons (.int 5) (.cons (.int 11) .nil)) .nil)) .nil)) .nil))
+    = ⟨true, .int 147, false, false⟩ := by decide
+-- (c (f (r 1)) (q f 2))  ⇒  (c 5 (q f 2))
+example : briefPath (.cons (.int 4) (.cons (.cons (.int 5) (.cons (.cons (.int 6) (.cons (.int 1) .nil)) .nil)) (.cons (.cons (.int 1) (.cons (.int 5) (.cons (.int 2) .nil))) .nil)))
+    = ⟨true, .cons (.int 4) (.cons (.int 5) (.cons (.cons (.int 1) (.cons (.int 5) (.cons (.int 2) .nil))) .nil)), false, false⟩ := by decide
+
+private def deepL : Nat → Val → Val
+  | 0, v => v
+  | n + 1, v => .pair (deepL n v) (A [])
+
+/-- counter-witness (negative path integer): `(f -128)` is `(f 0x80)`, the node 8 levels down
+    the firsts; `compose_paths(-128, 2)` is 2, one level down. -/
+theorem brief_path_selection_counterexample_negative :
+    briefPath (.cons (.int 5) (.cons (.int (-128)) .nil)) = ⟨true, .int 2, true, false⟩ ∧
+    evalC Ops.chiaOps 4 (Rich.toClvm true (.cons (.int 5) (.cons (.int (-128)) .nil))) (deepL 8 (A [9])) = .ok (A [9]) ∧
+    evalC Ops.chiaOps 4 (Rich.toClvm true (.int 2)) (deepL 8 (A [9])) = .ok (deepL 7 (A [9])) := by
+  decide
+
+-- ---------------------------------------------------------------------------------------
+-- sequencing
+-- ---------------------------------------------------------------------------------------
+
+/-- **the passes compose**: `Strategy23::post_codegen_output_optimize` /
+    `::post_codegen_function_optimize` — `null_optimization(·, true)`, then
+    `remove_double_apply(·, true)`, then `brief_path_selection`, "the input when nothing worked" —
+    preserves every value of the input, for every fuel of the double-apply loop and every run
+    whose (combined) ghost flag is clear. -/
+theorem strategy23_sound_partial {ops : OpSem} (po : PassOps ops) (m : Mode) (fuel : Nat) (r : Rich)
+    (hf : (strategy23 m fuel r).flag = false) (e v : Val) (h : Evaluates ops (Rich.toClvm m r) e v) :
+    Evaluates ops (Rich.toClvm m (strategy23 m fuel r).out) e v := by
+  have := strategy23_pres po m fuel r hf
+  simp only [Pres, if_true] at this
+  exact this e v h
+
+/-- `ExistingStrategy::post_codegen_output_optimize` for every option set: the identity unless
+    `frontend_opt` and stepping > 22, then `null_optimization(·, false)`. -/
+theorem existing_strategy_sound_partial {ops : OpSem} (po : PassOps ops) (m : Mode) (fe : Bool)
+    (stepping : Option Int) (r : Rich) (hf : (existingStrategy m fe stepping r).flag = false)
+    (e v : Val) (h : Evaluates ops (Rich.toClvm m r) e v) :
+    Evaluates ops (Rich.toClvm m (existingStrategy m fe stepping r).out) e v := by
+  have := existingStrategy_pres po m fe stepping r hf
+  simp only [Pres, if_true] at this
+  exact this e v h
+
+/-- without `frontend_opt`, or at stepping ≤ 22, `ExistingStrategy` leaves the code alone. -/
+theorem existing_strategy_identity (m : Mode) (fe : Bool) (stepping : Option Int) (r : Rich)
+    (h : (fe && steppingAbove22 stepping) = false) : (existingStrategy m fe stepping r).out = r := by
+  simp [existingStrategy, h, same]
+
+-- (a (q . (c (f (r 1)) (q))) 1)  ⇒  (c 5 (q))   — double apply and brief take part ((q) sits inside the quote when null_optimization runs), flag clear
+example : strategy23 true 40
+    (.cons (.int 2) (.cons (.cons (.int 1) (.cons (.int 4) (.cons (.cons (.int 5) (.cons (.cons (.int 6) (.cons (.int 1) .nil)) .nil)) (.cons (.cons (.int 1) .nil) .nil))))
+      (.cons (.int 1) .nil)))
+    = ⟨true, .cons (.int 4) (.cons (.int 5) (.cons (.cons (.int 1) .nil) .nil)), false, false⟩ := by decide
+
+-- ---------------------------------------------------------------------------------------
+-- termination of the `while any_transformation` loop
+-- ---------------------------------------------------------------------------------------
+
+/-- every transformation `remove_double_apply` reports removes at least one node (any fuel):
+    the measure that makes the `while any_transformation` loop terminate. -/
+theorem remove_double_apply_shrinks (m : Mode) (fuel : Nat) (r : Rich) (spine : Bool) :
+    rsize (rda m fuel r spine).out ≤ rsize r ∧
+    ((rda m fuel r spine).changed = true → rsize (rda m fuel r spine).out < rsize r) :=
+  (rda_size m fuel).1 r spine
+
+/-- **termination**: with fuel `2 * size + 2` the loop (at every depth of the recursion) stops
+    because no rewrite applies any more, never because the fuel ran out — so the fuel-indexed
+    model run the driver compares with the Rust code IS the Rust function's result. -/
+theorem remove_double_apply_terminates (m : Mode) (r : Rich) (spine : Bool) :
+    (removeDoubleApply m r spine).oof = false :=
+  removeDoubleApply_terminates m r spine
+
+/-- the same inside the `Strategy23` sequence (`null_optimization` never grows the tree). -/
+theorem strategy23_loop_terminates (m : Mode) (r : Rich) :
+    (strategy23 m (strategy23Fuel r) r).oof = false :=
+  strategy23_terminates m r
+
+-- ---------------------------------------------------------------------------------------
+-- which exclusions can arise on code-generator output
+-- ---------------------------------------------------------------------------------------
+
+/-- `CodegenShape` (`exprShape`: no pair in operator position outside quoted data, no negative
+    path integer) rules out every excluded class of `brief_path_selection`: on expression-shaped
+    code the pass is sound without exclusions (with `brief_path_selection_partial`). -/
+theorem brief_path_selection_flag_free_on_codegen_shape (r : Rich) (h : exprShape r = true) :
+    (briefPath r).flag = false :=
+  (brief_flag_of_shape r).1 h
+
+/-- likewise for `null_optimization` entered at an expression (`spine = false`, the
+    `ExistingStrategy` call) in the fixed integer mode: on expression-shaped code only the root
+    treatment of `Strategy23` (`spine = true`, counter-witness `…_root_quote`), the legacy-mode
+    zero and the double-apply loop's re-entry into quoted data remain — the three classes that
+    ARE reachable from source. -/
+theorem null_optimization_flag_free_on_codegen_shape (r : Rich) (h : exprShape r = true) :
+    (nullPass true r false).flag = false := by
+  have := null_flag_of_shape r false (by simpa using h)
+  simp [nullPass, this]
+
+example : exprShape (.cons (.int 2) (.cons (.cons (.int 1) (.cons (.cons (.int 9) .nil) .nil)) (.cons (.int 1) .nil))) = true ∧
+    exprShape (.cons (.cons (.int 4) .nil) (.cons (.int 1) .nil)) = false ∧
+    exprShape (.cons (.int 5) (.cons (.int (-128)) .nil)) = false := by decide
 
 end C02
